@@ -166,6 +166,12 @@ def campaign(c):
             for ctx in (['let', 's', '='] + e + [';'], ['f', '('] + e + [')', ';'], ['f', '(', 'k', ':'] + e + [',', 'j', ':'] + e + [')', ';'],
                         ['x', '/'] + e + [';'], ['let', 's', '='] + e + ['/', '9', ';']):
                 check(c, ctx, 'slash-operands')
+    # a ':' after something that is not an argument name or an address: every literal kind x what follows the colon x context
+    for lit in (['12'], ['0x10'], ['true'], ['"a"'], ['-7'], ['1.2.3.4', ':', '80'], ['f', '(', ')'], ['m', '::', 'c']):
+        for after in (['30'], ['65535'], ['65536'], ['0x1f'], ['x'], ['"b"'], ['1.2.3.4'], [], [':', '1']):
+            e = lit + [':'] + after
+            for ctx in (['let', 'a', '='] + e + [';'], ['f', '('] + e + [')', ';'], ['f', '(', 'k', ':'] + e + [')', ';'], ['a', '/'] + e + [';'], e + [';'], ['let', 'a', '='] + e):
+                check(c, ctx, 'literal-colon')
     # scale: each recursive construct of the grammar repeated n times ("nested to any depth"): '/' chains (all pending operators
     # are reduced on the one token that follows the chain), nested calls, argument lists, module paths, member chains
     for n in ([1, 2, 5, 16, 17, 18, 19, 20, 39, 40, 41, 64, 150] if c.quick else list(range(1, 70)) + [100, 150, 300, 1000]):
